@@ -324,6 +324,10 @@ class Application:
         if self.allocation:
             constraints += self.allocation.constraints
 
+        # Required traits (own and allocation's) restrict eligible servers.
+        if self.traits:
+            constraints += (self.traits,)
+
         return constraints, self.demand
 
     def acquire_identity(self):
